@@ -52,7 +52,7 @@ SocketServer::SocketServer()
 SocketServer::~SocketServer()
 {
 	if(_thread) {
-		_thread->kill();
+		_requestStop = true; // let the accept loop end by itself (it polls every 2 s): cancelling a thread blocked in select() unwinds it asynchronously
 		_thread->join(); // the thread object must outlive the thread
 		delete _thread;
 	}
